@@ -260,6 +260,9 @@ func c20Report(c *Ctx) {
 	}
 	got := map[string]int{}
 	for _, fn := range p.Fns {
+		if fn.Parent() != nil && iifeCall(fn) != nil {
+			continue // an immediately-invoked literal (an inlined-back helper): its sites are counted with its caller's
+		}
 		if n := len(Info(fn).Find(errorf)); n > 0 {
 			got[p.Name(fn)] = n
 		}
@@ -343,37 +346,54 @@ func c20Atomic(c *Ctx) {
 		if rootFn(fn).Pkg != p.Mocks || fn.Blocks == nil {
 			continue
 		}
-		var pops, offs []*ssa.Store
-		for _, b := range fn.Blocks {
-			for _, in := range b.Instrs {
-				st, ok := in.(*ssa.Store)
-				if !ok {
-					continue
-				}
-				owner, name, _, ok := ownerField(st.Addr)
-				if !ok || (owner != "SyncProducer" && owner != "AsyncProducer") {
-					continue
-				}
-				switch name {
-				case "expectations":
-					// a pop: the new value is a slice of the old one
-					if _, isSlice := strip(st.Val).(*ssa.Slice); isSlice {
-						pops = append(pops, st)
-					}
-				case "lastOffset":
-					offs = append(offs, st)
-				}
-			}
+		if fn.Parent() != nil && iifeCall(fn) != nil {
+			continue // an immediately-invoked literal (an inlined-back helper) is looked at with its caller
 		}
+		var pops, offs []*ssa.Store
+		Info(fn).Each(func(it Item) {
+			st, ok := it.In.(*ssa.Store)
+			if !ok {
+				return
+			}
+			owner, name, _, ok := ownerField(st.Addr)
+			if !ok || (owner != "SyncProducer" && owner != "AsyncProducer") {
+				return
+			}
+			switch name {
+			case "expectations":
+				// a pop: the new value is a slice of the old one
+				if _, isSlice := strip(st.Val).(*ssa.Slice); isSlice {
+					pops = append(pops, st)
+				}
+			case "lastOffset":
+				offs = append(offs, st)
+			}
+		})
 		if len(pops) == 0 || len(offs) == 0 {
 			continue
 		}
 		at := acquisitionsAt(fn)
+		// site: the instruction of fn at which a store inside an immediately-invoked literal takes place (the call)
+		site := func(in ssa.Instruction) ssa.Instruction {
+			for d := 0; d < 6 && in != nil && in.Parent() != fn; d++ {
+				cl := iifeCall(in.Parent())
+				if cl == nil {
+					return nil
+				}
+				in = cl
+			}
+			return in
+		}
 		for _, o := range offs {
 			n++
 			_, _, base, _ := ownerField(o.Addr)
 			k := lockKey{base, "l"}
-			cur := at[o][k]
+			oSite := site(o)
+			if oSite == nil {
+				c.Unresolved(rule, "the place of an offset assignment in "+p.Name(fn))
+				continue
+			}
+			cur := at[oSite][k]
 			bad := ""
 			switch {
 			case len(cur) == 0:
@@ -387,8 +407,12 @@ func c20Atomic(c *Ctx) {
 				}
 				okPop := false
 				for _, pp := range pops {
-					pc := at[pp][k]
-					if len(pc) == 1 && pc[a] && (pp.Block().Dominates(o.Block())) {
+					pSite := site(pp)
+					if pSite == nil {
+						continue
+					}
+					pc := at[pSite][k]
+					if len(pc) == 1 && pc[a] && (pSite.Block().Dominates(oSite.Block())) {
 						okPop = true
 					}
 				}
